@@ -148,3 +148,27 @@ def run(ctx):
             r7.check(ok, key, "checkin_cleanup rolls an open transaction back before returning Ok", "checkin_cleanup can return Ok with the previous client's transaction still open (the ROLLBACK is built but not sent on some path): "
                      "the next client's statements run inside that transaction and its COMMIT makes the abandoned work durable", where, wit)
     r7.check(bool(rel), "release-through-checkin_cleanup", "the release path of the transaction loop calls checkin_cleanup (%d site(s))" % len(rel), "handle no longer calls checkin_cleanup on the release path")
+
+    # ---------------- R8 the transaction state follows the server's ReadyForQuery
+    r8 = ctx.rule("C01-R8", "Server.in_transaction follows the status byte of every ReadyForQuery: 'T' and 'E' (failed transaction block) mean `in a transaction`, 'I' means idle, anything else marks the connection bad; "
+                  "nothing else writes the flag", floor=4)
+    rv = ctx.body("pgcat::server::Server::recv::{closure#0}", r8)
+    if rv:
+        rsw = switches(rv)
+        st_sw = [sw for sw in rsw if sw.ty in ("char", "u8", "u32") and {v for v, _ in sw.targets} >= {84, 73, 69} and len(sw.targets) <= 4]
+        if not st_sw:
+            r8.missing("switch on the ReadyForQuery status byte ('T','I','E') in Server::recv")
+        else:
+            arms = {v: t for v, t in st_sw[0].targets}
+            writes = {}
+            for blk, i, st in rv.assigns():
+                if proj_fields(st["lhs"])[-1:] == ["in_transaction"] and st["rv"]["k"] == "use" and const_int(st["rv"].get("op")) is not None:
+                    writes.setdefault(blk, const_int(st["rv"]["op"]))
+            for code, want, nm in ((84, 1, "T"), (69, 1, "E"), (73, 0, "I")):
+                region = {b for b in range(rv.nblocks) if rv.dominates(arms[code], b)}
+                got = {v for b, v in writes.items() if b in region}
+                r8.check(got == {want}, "status:" + nm, "ReadyForQuery '%s' sets in_transaction = %s" % (nm, bool(want)),
+                         "ReadyForQuery '%s' %s: a transaction opened and failed within one round trip (`BEGIN; <failing statement>` as one simple query, or BEGIN piggy-backed on an extended batch) is only ever reported with 'E' - "
+                         "the connection would be released with the failed transaction open and the next client's statements run inside it" % (nm, "does not set in_transaction" if not got else "sets in_transaction to %s" % sorted(got)))
+            other = sorted({n_ for n_, b_ in F.bodies.items() if not n_.startswith("bin:") and n_ != rv.name and not n_.endswith("Server::startup::{closure#0}") and any(proj_fields(st["lhs"])[-1:] == ["in_transaction"] for blk, i, st in b_.assigns())})
+            r8.check(not other, "flag-writers", "in_transaction is written only by Server::recv", "in_transaction is also written by %s" % other)
